@@ -375,16 +375,13 @@ Qed.
 Lemma apply_flat_app l1 l2 a : apply_flat (l1 ++ l2) a = apply_flat l2 (apply_flat l1 a).
 Proof. unfold apply_flat. apply fold_left_app. Qed.
 
-Definition accepted (label : N) (idx : index) (members : list N) (s : N) : bool :=
-  memN s (match supervoxels idx with [] => [label] | l => l end) || memN s members.
-
 Lemma modify_blocks_flat label idx sc members :
-  modify_blocks label idx sc members = apply_flat (flat_changes (accepted label idx members) sc) (Ok idx).
+  modify_blocks label idx sc members = apply_flat (flat_changes (accepts label idx members) sc) (Ok idx).
 Proof.
-  unfold modify_blocks, accepted. set (own := match supervoxels idx with [] => [label] | l => l end).
+  unfold modify_blocks.
   generalize (Ok idx) as a. induction sc as [|sb r IH]; intro a; simpl; [reflexivity|].
   rewrite apply_flat_app. rewrite IH. f_equal.
-  destruct (memN (fst sb) own || memN (fst sb) members); [apply mod_blocks_of_flat | reflexivity].
+  destruct (accepts label idx members (fst sb)); [apply mod_blocks_of_flat | reflexivity].
 Qed.
 
 (* total delta of a change list for one (supervoxel, block) *)
@@ -427,7 +424,7 @@ Proof.
 Qed.
 
 Theorem modify_blocks_spec label idx sc members :
-  let l := flat_changes (accepted label idx members) sc in
+  let l := flat_changes (accepts label idx members) sc in
   NoDup (map fst l) ->
   (forall s b d, In (s, b, d) l -> (- 2 ^ 31 <= d < 2 ^ 31)%Z /\ (0 <= Z.of_N (cnt idx b s) + d < 2 ^ 32)%Z) ->
   exists idx', modify_blocks label idx sc members = Ok idx' /\
